@@ -214,7 +214,10 @@ func runC07(c FaultCase) (*faultStats, error) {
 			for _, p := range pk {
 				out, _, err := dec(clonePacket(p))
 				if err != nil {
-					return nil, nil // C03 business
+					// the fault-free arrival is the first history C07 quantifies over: every frame of it arrives in order
+					// after a frame that arrived in order (the generator is C03's, so this never happens on a sound tree)
+					return nil, fmt.Errorf("frame %d packet (seq %d, first seq %d) of the stream without any fault was rejected: %v "+
+						"(units %s): every frame of an undamaged stream must be returned", i, p.SequenceNumber, s.Cfg.InitSeq, err, descUnits(s.Frames[i].unitBytes()))
 				}
 				for _, u := range out {
 					ref[i] = append(ref[i], append([]byte(nil), u...))
